@@ -546,6 +546,7 @@ type PingRec struct {
 // ---- node ----
 
 type SimNode struct {
+	Spec NodeSpec // as given to Add
 	Name string
 	EP   *Endpoint
 	M    atomic.Pointer[memberlist.Memberlist]
@@ -628,7 +629,7 @@ func (c *Cluster) Add(spec NodeSpec) (*SimNode, error) {
 	if spec.Port == 0 {
 		spec.Port = 7946
 	}
-	n := &SimNode{Name: spec.Name, Log: &LogBuf{}, sink: c.sink}
+	n := &SimNode{Name: spec.Name, Log: &LogBuf{}, sink: c.sink, Spec: spec}
 	n.EP = c.Net.NewEndpoint(spec.Name, spec.IP, spec.Port)
 	conf := BaseConfig(spec.Name)
 	conf.BindPort = spec.Port
